@@ -753,6 +753,42 @@ type twoStateLemma struct {
 	pkg *types.Package
 }
 
+// exprMentionsFn: the expression applies one of the named builtins somewhere.
+func exprMentionsFn(e Expr, names ...string) bool {
+	found := false
+	var walk func(e Expr)
+	walk = func(e Expr) {
+		switch t := e.(type) {
+		case *ECall:
+			if id, ok := t.Fun.(*EIdent); ok {
+				for _, n := range names {
+					if id.Name == n {
+						found = true
+					}
+				}
+			}
+			walk(t.Fun)
+			for _, a := range t.Args {
+				walk(a)
+			}
+		case *EUnary:
+			walk(t.X)
+		case *EBinary:
+			walk(t.X)
+			walk(t.Y)
+		case *ESel:
+			walk(t.X)
+		case *EIndex:
+			walk(t.X)
+			walk(t.I)
+		case *EQuant:
+			walk(t.Body)
+		}
+	}
+	walk(e)
+	return found
+}
+
 func exprMentionsOld(e Expr) bool {
 	found := false
 	var walk func(e Expr)
